@@ -28,6 +28,14 @@ MarshalFailed(e) == \E s \in 1..3 : e.inb[s] = -1
 ExtUnsOK(e) == e.st = "ok" /\ e.has0 = 1 /\ e.geterr = 1 /\ e.seterr = 1 /\ e.same = 1 /\ e.x1 = 1 /\ e.errc = 1
 \* ExtensionFieldNumber of a run-time built protoreflect.ExtensionType is its number; of anything that is no descriptor: 0 and an error
 ExtNumOK(e) == e.st = "ok" /\ e.same = 1 /\ e.errc = 1
+\* values of extensions through the generated code (family "extval"); e.op names the property the run records for:
+\*   C04 Size = len(Marshal) and MarshalTo fills exactly Size() bytes with the same bytes
+\*   C05 the owning runtime decodes the generated Marshal's bytes to an equal message (Marshal of a valid message succeeds)
+\*   C06 the generated Unmarshal decodes the owning runtime's bytes to an equal message
+ExtRtOK(e) == CASE e.op = "C04" -> e.st # "panic" /\ (e.st = "ok" => (e.szok = 1 /\ e.mto = 1))
+                [] e.op = "C05" -> e.st = "ok" /\ e.x1 = 1
+                [] e.op = "C06" -> e.st # "panic" /\ e.x2 = 1
+                [] OTHER -> FALSE
 ExtMisOK(e) == e.has0 = 1 /\ e.geterr = 1 /\ e.seterr = 1 /\ e.unchanged = 1 /\ e.st # "panic"
 
 \* ---- C18: JSON adapters -------------------------------------------------------------------
@@ -56,6 +64,7 @@ TStep == /\ l <= Len(Trace)
                                      /\ mfail' = (IF MarshalFailed(e) THEN Append(mfail, l) ELSE mfail)
                                      /\ UNCHANGED desync
                  [] e.c = "extmis" -> bad' = (IF ExtMisOK(e) THEN bad ELSE Append(bad, l)) /\ UNCHANGED <<desync, xs, mfail>>
+                 [] e.c = "extrt" -> bad' = (IF ExtRtOK(e) THEN bad ELSE Append(bad, l)) /\ UNCHANGED <<desync, xs, mfail>>
                  [] e.c = "extuns" -> bad' = (IF ExtUnsOK(e) THEN bad ELSE Append(bad, l)) /\ UNCHANGED <<desync, xs, mfail>>
                  [] e.c = "extnum" -> bad' = (IF ExtNumOK(e) THEN bad ELSE Append(bad, l)) /\ UNCHANGED <<desync, xs, mfail>>
                  [] e.c = "json" -> bad' = (IF JsonOK(e) THEN bad ELSE Append(bad, l)) /\ UNCHANGED <<desync, xs, mfail>>
